@@ -399,8 +399,15 @@ def run_history(acc, ops, site, strip=True, shared=False):
     pool = {} if shared else None
     for i, op in enumerate(ops):
         case = {"kind": "history", "ops": ops[: i + 1], "site": site, "shared": shared}
+        twin = c.copy()                       # a copy taken before the call must not feel the call
+        twin_reg = sorted(twin.blackboxes)
+        twin_nodes = len(twin.graph)
         r = apply_op(acc, c, insts, op, case, site, pool)
         if not r:
+            return False
+        if sorted(twin.blackboxes) != twin_reg or len(twin.graph) != twin_nodes:
+            acc.violation(site, "earlier-copy-of-the-parent-changed", case,
+                          f"registry of a copy taken before {op[0]}: {twin_reg} -> {sorted(twin.blackboxes)}")
             return False
         if not check_state(acc, c, insts, case, site):
             return False
